@@ -83,14 +83,44 @@ type sessStream struct {
 	valid    []*submission // every SendMsg submission on this stream, in order
 	nextQ    uint64
 	closedRx bool
+	hold     chan struct{} // when non-nil, Send blocks (after logging) until released: a slow client
+	inSend   chan struct{}
+}
+
+func (s *sessStream) holdSends() {
+	s.mtx.Lock()
+	s.hold = make(chan struct{})
+	s.inSend = make(chan struct{})
+	s.mtx.Unlock()
+}
+
+func (s *sessStream) release() {
+	s.mtx.Lock()
+	if s.hold != nil {
+		close(s.hold)
+		s.hold = nil
+	}
+	s.mtx.Unlock()
 }
 
 func (s *sessStream) Context() context.Context { return s.ctx }
 func (s *sessStream) Send(m *signaling.SessionResponse) error {
 	s.mtx.Lock()
 	s.resps = append(s.resps, m)
+	hold, inSend := s.hold, s.inSend
 	s.mtx.Unlock()
 	s.w.logTx(s.id, m)
+	if hold != nil {
+		select {
+		case <-inSend:
+		default:
+			close(inSend)
+		}
+		select {
+		case <-hold:
+		case <-s.ctx.Done():
+		}
+	}
 	return nil
 }
 func (s *sessStream) SendAndClose(m *signaling.SessionResponse) error { return s.Send(m) }
@@ -214,9 +244,15 @@ func (w *world) logLtx(call int, m *signaling.ListenResponse) {
 	}
 }
 
-func (w *world) newSession(src, dst int) *sessStream {
+func (w *world) newSession(src, dst int) *sessStream { return w.newSessionOpt(src, dst, false) }
+
+// newSessionOpt: held = the client is slow from the start (the handler's first Send blocks).
+func (w *world) newSessionOpt(src, dst int, held bool) *sessStream {
 	ctx, cancel := context.WithCancel(context.WithValue(context.Background(), ctxKey{}, w.e.pids[src]))
 	s := &sessStream{w: w, src: src, dst: dst, ctx: ctx, cancel: cancel, reqCh: make(chan *signaling.SessionRequest, 64), done: make(chan struct{})}
+	if held {
+		s.holdSends()
+	}
 	w.mtx.Lock()
 	s.id = len(w.scalls) + len(w.lcalls) + 1
 	w.scalls = append(w.scalls, s)
@@ -442,6 +478,23 @@ func (e *engine) scenario(kind string, n int) {
 		act("attach 1->2; quiesce; attach 2->1; quiesce")
 		w.submit(b, "send")
 		act("send on 2->1")
+	case "usurp-while-partner-blocked":
+		// C20/C22 sentinel: B's write loop is parked in Send (slow client) while A1 submits a
+		// message for the current epoch and A2 then replaces A1 (new epoch); B resumes
+		a1 := w.newSession(1, 2)
+		w.quiesce(300 * time.Microsecond)
+		b := w.newSessionOpt(2, 1, true)
+		select {
+		case <-b.inSend:
+		case <-time.After(2 * time.Second):
+		}
+		w.quiesce(300 * time.Microsecond)
+		w.submit(a1, "send")
+		w.quiesce(300 * time.Microsecond)
+		w.newSession(1, 2) // replaces a1, new epoch
+		w.quiesce(300 * time.Microsecond)
+		b.release()
+		act("attach 1->2; attach 2->1 (slow client: parked in its first Send); send on 1->2; 1 re-attaches (new epoch); 2->1 resumes")
 	case "listen-reopen":
 		// C24 sentinel (F8): listener stays while a session towards it opens, closes, re-opens
 		w.newListen(2)
@@ -516,10 +569,27 @@ func (e *engine) scenario(kind string, n int) {
 				}
 				w.newSession(src, dst)
 				act(fmt.Sprintf("attach %d->%d", src, dst))
-			case r < 26:
+			case r < 24:
 				p := 1 + e.rng.Intn(3)
 				w.newListen(p)
 				act(fmt.Sprintf("listen %d", p))
+			case r < 26:
+				var ss []*sessStream
+				for _, x := range w.scalls {
+					if x.alive() {
+						ss = append(ss, x)
+					}
+				}
+				if len(ss) > 0 {
+					x := ss[e.rng.Intn(len(ss))]
+					if e.rng.Intn(2) == 0 {
+						x.holdSends()
+						act(fmt.Sprintf("slow client on session call %d", x.id))
+					} else {
+						x.release()
+						act(fmt.Sprintf("release session call %d", x.id))
+					}
+				}
 			case r < 28:
 				var ll []*listenStream
 				for _, l := range w.lcalls {
@@ -565,6 +635,9 @@ func (e *engine) scenario(kind string, n int) {
 	}
 	for _, l := range w.lcalls {
 		l.release()
+	}
+	for _, x := range w.scalls {
+		x.release()
 	}
 	w.quiesce(2 * time.Millisecond)
 	e.validate(w, kind, actions, false)
@@ -830,10 +903,11 @@ func keys(m map[int]bool) []int {
 
 func (e *engine) run() {
 	e.rep.Rule = "seeded random schedules of client actions (attach/usurp/send/stale/future/forged/tampered/ack/clear/re-init/close/cancel/listen) on the real relay server through fake streams with jitter; every server critical section + every response is replayed against the Lean LTS; sentinels: detach+re-attach and usurp while the partner stays (F10), late attach with a single sender (F9), listen across open/close/re-open (F8); distinct = distinct schedule"
-	e.rep.Require("trace.random.quiescent", "trace.random.drained", "trace.reattach-race.quiescent", "trace.late-attach.quiescent", "trace.listen-reopen.quiescent", "trace.listen-swap.quiescent", "trace.listen-stale-cleanup.quiescent")
+	e.rep.Require("trace.random.quiescent", "trace.random.drained", "trace.reattach-race.quiescent", "trace.late-attach.quiescent", "trace.listen-reopen.quiescent", "trace.listen-swap.quiescent", "trace.usurp-while-partner-blocked.quiescent", "trace.listen-stale-cleanup.quiescent")
 	e.rep.Extra["events"] = 0
 	e.scenario("late-attach", 1)
 	e.scenario("listen-reopen", 2)
+	e.scenario("usurp-while-partner-blocked", 1)
 	e.scenario("listen-swap", 1)
 	e.scenario("listen-stale-cleanup", 1)
 	for i := 0; i < 3*e.a.Scale; i++ {
